@@ -254,7 +254,9 @@ def sweepLoop {n : Nat} : (fuel : Nat) → Slots Nat Payload n → (i : Nat) →
 def clearMarks {n : Nat} (s : Slots Nat Payload n) : Slots Nat Payload n :=
   s.map (fun o => o.map (fun e => { e with val := { e.val with marked := false } }))
 
-/-- last loop of GC_Sweep: finalise what is still listed, slot by slot (a destructor may strike later slots off) -/
+/-- last loop of GC_Sweep: finalise what is still listed, slot by slot (a destructor may strike later slots off).  The C loop
+    reads the word and skips it when it is NULL (`if (item)`): `none` here; an object at address 0 is never registered
+    (`okOp`: allocation does not return NULL), so `some 0` does not occur. -/
 def finaliseLoop (c : Cfg) (K : Nat → List Nat) : (todo : Nat) → (i : Nat) → Reg → List Nat → Option (Reg × List Nat)
   | 0, _, r, t => some (r, t)
   | todo+1, i, r, t =>
